@@ -163,6 +163,8 @@ func mitmCase(c *mon.Case, r *mon.Run, sf base.ServerFactory, b o4.Bridge, t tam
 	if err == nil {
 		// try to use it
 		cc.Write(st.Bytes(1000, 50))
+		tm := time.AfterFunc(5*time.Second, func() { cw.Close() })
+		defer tm.Stop()
 		buf := make([]byte, 4096)
 		got := 0
 		for got < 100 {
@@ -278,8 +280,12 @@ func impostorCase(c *mon.Case, r *mon.Run, victim o4.Bridge, mode string, record
 	cc, err := o4.DialReal(cw, victim.ClientArgsCert())
 	out.dialErr, out.dialAt = err, time.Since(start)
 	if err == nil {
+		// (already a violation; see what the application would get, but do not
+		// wait for ever on a silent impostor)
+		tm := time.AfterFunc(5*time.Second, func() { cw.Close() })
 		buf := make([]byte, 4096)
 		n, rerr := cc.Read(buf)
+		tm.Stop()
 		out.clientGot, out.clientReadErr = int64(n), rerr
 		cc.Close()
 	}
